@@ -49,6 +49,22 @@ def run(ctx):
         for kind in ("echo", "plus1", "minus1"):
             for pat in ([0], [1], [1, 0], [0, 1]):
                 S.append(dict(op="get", oids=[[1, 1]], db=db, proto=proto, disco=kind, ticks=pat, nr=0, mr=0))
+    # history: the client talked under another community of the same family before it was (re)configured
+    for proto in ("v1", "v2c"):
+        for op in O.OPS:
+            if op == "bulkget" and proto == "v1":
+                continue
+            for how in ("configure", "block"):
+                for pert in ("none", "wrong_comm"):
+                    oids = [[1, 1]] if op in O.SINGLE else [[1, 1], [1, 2]]
+                    sc = dict(op=op, oids=oids, db=db, proto=proto, perturb=pert, ticks=[1], nr=0, mr=0, recomm=how)
+                    if pert == "wrong_comm":
+                        sc["wrong_comm"] = "first"          # the community that WAS right before the change
+                    if op == "bulkget":
+                        sc["nr"], sc["mr"] = 1, 2
+                    if op in ("set", "multiset"):
+                        sc["setvals"] = O.setvals(rnd, oids)
+                    S.append(sc)
     # the agent is replaced between discovery and the request (unknownEngineID Report), then answers with a foreign / the right id
     for proto in O.PROTOS[2:]:
         for op in ("get", "getnext", "multiget", "set", "bulkget"):
